@@ -87,15 +87,34 @@ def creation_conditions(A):
                     out_page[c.name] = s.value.value
     fn = loader.find_def("ford.output", "Documentation.__init__")
     created = {}
+    cls_node = next(c for c in mod.body if isinstance(c, ast.ClassDef) and c.name == "Documentation")
+    helpers = {m.name: m for m in cls_node.body if isinstance(m, ast.FunctionDef) and m.name.startswith("_") and not m.name.startswith("__")}
 
-    def visit(stmts, cond):
+    class _Subst(ast.NodeTransformer):
+        def __init__(self, m):
+            self.m = m
+
+        def visit_Name(self, n):
+            return ast.copy_location(ast.Name(id=self.m[n.id], ctx=n.ctx), n) if n.id in self.m else n
+
+    def visit(stmts, cond, depth=0):
         for s in stmts:
+            # a private method of Documentation called as a statement (`self._create_list_pages(settings, project)`) is followed, its parameters renamed to the arguments
+            if isinstance(s, ast.Expr) and isinstance(s.value, ast.Call) and isinstance(s.value.func, ast.Attribute) and isinstance(s.value.func.value, ast.Name) \
+                    and s.value.func.value.id == "self" and s.value.func.attr in helpers and depth < 3 and all(isinstance(a, ast.Name) for a in s.value.args) and not s.value.keywords:
+                h = helpers[s.value.func.attr]
+                params = [a.arg for a in h.args.args][1:]
+                if len(params) == len(s.value.args):
+                    import copy
+                    m = {p: a.id for p, a in zip(params, s.value.args)}
+                    visit([_Subst(m).visit(copy.deepcopy(x)) for x in h.body], cond, depth + 1)
+                continue
             if isinstance(s, ast.If):
                 t = py_bool(s.test, A)
-                visit(s.body, cond + [t])
-                visit(s.orelse, cond + [z3.Not(t)])
+                visit(s.body, cond + [t], depth)
+                visit(s.orelse, cond + [z3.Not(t)], depth)
             elif isinstance(s, (ast.Try, ast.With, ast.For)):
-                visit(s.body, cond)        # a For body may run zero times: only list pages appended outside loops are recognised below
+                visit(s.body, cond, depth)        # a For body may run zero times: only list pages appended outside loops are recognised below
             elif isinstance(s, ast.Expr) and isinstance(s.value, ast.Call) and ast.unparse(s.value.func) == "self.lists.append" and s.value.args \
                     and isinstance(s.value.args[0], ast.Call) and isinstance(s.value.args[0].func, ast.Name):
                 cls = s.value.args[0].func.id
@@ -108,8 +127,13 @@ def creation_conditions(A):
 
 
 # ---------------------------------------------------------------- template side
+_SETS = {}      # `{% set x = <expr> %}` names of the template being read that are set exactly once: they stand for their expression
+
+
 def j_int(n, A):
     import jinja2.nodes as N
+    if isinstance(n, N.Name) and n.name in _SETS:
+        return j_int(_SETS[n.name], A)
     if isinstance(n, N.Const) and isinstance(n.value, int) and not isinstance(n.value, bool):
         return z3.IntVal(n.value)
     if isinstance(n, N.Filter) and n.name in ("length", "count") and isinstance(n.node, N.Getattr) and isinstance(n.node.node, N.Name) and n.node.node.name == "project":
@@ -127,6 +151,8 @@ SETTINGS_GLOBALS = ("incl_src", "search", "graph")
 
 def j_bool(n, A, tests):
     import jinja2.nodes as N
+    if isinstance(n, N.Name) and n.name in _SETS:
+        return j_bool(_SETS[n.name], A, tests)
     if isinstance(n, N.And):
         return z3.And(j_bool(n.left, A, tests), j_bool(n.right, A, tests))
     if isinstance(n, N.Or):
@@ -176,6 +202,9 @@ def template_links(A, tests, pattern=re.compile(r"lists/([A-Za-z_]+\.html)")):
         if not name.endswith(".html"):
             continue
         tree = env.parse(open(os.path.join(tdir, name), encoding="utf-8").read())
+        assigned = [a for a in tree.find_all(N.Assign) if isinstance(a.target, N.Name)]
+        _SETS.clear()
+        _SETS.update({a.target.name: a.node for a in assigned if sum(1 for b in assigned if b.target.name == a.target.name) == 1 and a.target.name not in {x.name for x in a.node.find_all(N.Name)}})
 
         def visit(node, cond):
             if isinstance(node, N.If):
@@ -215,7 +244,7 @@ def shape_of(model, A):
     return {k: model.eval(v, model_completion=True).as_long() for k, v in A.len.items()} | {k: bool(model.eval(v, model_completion=True)) for k, v in A.flags.items()}
 
 
-def obligations(prop="C09", replay=None):
+def obligations(prop="C09", replay=None, missing_replay=None):
     A = Atoms()
     out = []
     t0 = time.time()
@@ -233,8 +262,11 @@ def obligations(prop="C09", replay=None):
         r = OR(id=oid, kind="S", target=f"ford/templates/{tname} -> lists/{page}", role="post", backend="jinja2-ast+ast+z3", status=UNKNOWN,
                desc=f"the guard of the link to lists/{page} (line {line}) implies the condition under which Documentation.__init__ creates that page")
         if page not in created:
-            r.status, r.witness = REFUTED, {"page": page, "problem": "no statement of Documentation.__init__ creates this list page"}
-            out.append(r)
+            # the statement that creates the page was not found where this obligation looks for it (Documentation.__init__ and the private methods it calls): undecided,
+            # unless the whole-site stand-in (every link of every page resolves) finds the dangling link
+            r.witness = {"page": page, "problem": "no statement of Documentation.__init__ (or of a private method it calls) creates this list page"}
+            from contracts import astform
+            out.append(astform.decide(r, False, missing_replay))
             continue
         s = z3.Solver()
         s.set("timeout", 20000)
@@ -260,6 +292,10 @@ def obligations(prop="C09", replay=None):
                     r.replay = replay(shape, page)
                 except Exception as ex:
                     r.replay = {"confirmed": False, "error": f"{type(ex).__name__}: {ex}"}
+                if not (isinstance(r.replay, dict) and r.replay.get("confirmed")):
+                    # the counter-model is one of the abstraction (list lengths, flags, uninterpreted atoms for what the translation does not read); no generated
+                    # project reproduces it on the real code: undecided (DESIGN 4.2), not a violation
+                    r.status, r.detail, r.replay = UNKNOWN, f"counter-model {shape} not reproduced by a real run", None
         else:
             r.detail = s.reason_unknown()
         out.append(r)
